@@ -415,6 +415,42 @@ class Facts:
         return self.env.get(key)
 
 
+def reaching_values(cfg: CFG, nid: int, name: str) -> list[ast.AST]:
+    """values of the assignments to local `name` that can reach node nid (backward search over the CFG,
+    stopping at each assignment)"""
+    out: list[ast.AST] = []
+    seen: set[int] = set()
+    work = [p for (p, _l) in cfg.pred[nid]]
+    while work:
+        n = work.pop()
+        if n in seen:
+            continue
+        seen.add(n)
+        nd = cfg.nodes[n]
+        a = nd.ast
+        hit = False
+        if nd.kind == "stmt" and isinstance(a, (ast.Assign, ast.AnnAssign)) and getattr(a, "value", None) is not None:
+            for t in (a.targets if isinstance(a, ast.Assign) else [a.target]):
+                if isinstance(t, ast.Name) and t.id == name:
+                    out.append(a.value)
+                    hit = True
+        if not hit:
+            work.extend(p for (p, _l) in cfg.pred[n])
+    return out
+
+
+def value_at(repo: Repo, fi: FuncInfo, cfg: CFG, nid: int, e: ast.AST) -> ast.AST:
+    """`e` with a Name replaced by its unique reaching definition at node nid (then origin-expanded)"""
+    if isinstance(e, ast.Name):
+        vals = reaching_values(cfg, nid, e.id)
+        if len(vals) == 1:
+            return expand(repo, fi, vals[0]) or vals[0]
+        if vals and len({unparse(v) for v in vals}) == 1:
+            return expand(repo, fi, vals[0]) or vals[0]
+    x = expand(repo, fi, e)
+    return x if x is not None else e
+
+
 def guard_facts(repo: Repo, fi: FuncInfo, cfg: CFG, nid: int, expand_locals: bool = True) -> Facts:
     """facts implied by the branch decisions that dominate node nid (origin-expanded by default)"""
     f = Facts(repo, fi, {}, expand_locals=expand_locals)
